@@ -266,6 +266,9 @@ func VH_C07_buy() {
 	if had {
 		zzverif.Assume(zzBand(pre))
 	}
+	// the payer can afford any price, so that a natively replayed purchase (priced by the real price
+	// function instead of the cut) goes through as well
+	zzverif.Assume(e.bank.ZBal(payer, "ujkl").Ge(zzverif.ZOf(1 << 62).Mul(zzverif.ZOf(1 << 40))))
 	err, pan := zzverif.Deliver(func() error { _, er := e.srv.BuyStorage(sdk.WrapSDKContext(e.ctx), &msg); return er })
 	post, has := e.k.GetStoragePaymentInfo(e.ctx, creator)
 	if !zzverif.Ok(err, pan) {
